@@ -103,7 +103,7 @@ def body_factory(ctx):
             g = _f(tj.max_phase_gap(s, data))
         want = brute_gap(phase)
         ptol = 1e-9 + 4e-16 * np.max(np.abs(t - tref)) / P * 4
-        if abs(g - want) > 2 * ptol:
+        if not (abs(g - want) <= 2 * ptol):
             raise Violation("max_phase_gap is not the largest empty arc on the phase circle", got=g, want=want,
                             sorted_phases=np.sort(phase)[:12], wraparound_arc=1.0 - (phase.max() - phase.min()))
         # permutation of the observations
@@ -118,9 +118,9 @@ def body_factory(ctx):
         data_r, _ = make(case, 2 * c - t, 2 * c - case["t_ref_val"])
         with ctx.sut("max_phase_gap on the time-reversed pattern"):
             g_r = _f(tj.max_phase_gap(s, data_r))
-        if abs(g_p - g) > 1e-12:
+        if not (abs(g_p - g) <= 1e-12):
             raise Violation("max_phase_gap depends on the order of the observations", a=g, b=g_p)
-        if abs(g_r - g) > 4 * ptol:
+        if not (abs(g_r - g) <= 4 * ptol):
             raise Violation("max_phase_gap changes under time reversal of the observing pattern", forward=g, reversed=g_r)
         # ---- phase_coverage
         nb = case["n_bins"]
@@ -134,18 +134,18 @@ def body_factory(ctx):
             # (half-open bins [a, b): those of numpy.histogram, which the function is built on), nothing is ambiguous
             ambiguous = 0
         want_pc = len(set(idx.tolist())) / nb
-        if abs(pc - want_pc) > ambiguous / nb + 1e-12:
+        if not (abs(pc - want_pc) <= ambiguous / nb + 1e-12):
             raise Violation("phase_coverage is not the fraction of occupied phase bins", got=pc, want=want_pc,
                             n_bins=nb, phases=np.sort(phase)[:12])
-        if abs(pc_p - pc) > 1e-12:
+        if not (abs(pc_p - pc) <= 1e-12):
             raise Violation("phase_coverage depends on the order of the observations", a=pc, b=pc_p)
         # ---- periods_spanned
         with ctx.sut("periods_spanned"):
             ps = _f(tj.periods_spanned(s, data))
         want_ps = (t.max() - t.min()) / P
-        if abs(ps - want_ps) > 2e-9 / P + 1e-12 * abs(want_ps):
+        if not (abs(ps - want_ps) <= 2e-9 / P + 1e-12 * abs(want_ps)):
             raise Violation("periods_spanned is not baseline / period", got=ps, want=want_ps)
-        if abs(ps_p - ps) > 1e-12 * max(1.0, abs(ps)):
+        if not (abs(ps_p - ps) <= 1e-12 * max(1.0, abs(ps))):
             raise Violation("periods_spanned depends on the order of the observations", a=ps, b=ps_p)
         wrap = (1.0 - (phase.max() - phase.min())) >= (np.max(np.diff(np.sort(phase))) if len(t) > 1 else 0)
         ctx.note_case(case, len(t) >= 3, ["mode:" + case["mode"], "largest arc wraps" if wrap else "largest arc interior",
